@@ -1,3 +1,83 @@
 import Ptk.Proto
--- stub: the C20 model driver has not been written yet
-def main : IO Unit := Ptk.Proto.run fun _ => "bad-op"
+import Ptk.Model.C20
+import Ptk.Model.C20Chain
+open Ptk Ptk.Py Ptk.Proto Ptk.C20
+
+/-! Line-protocol driver for the C20 models.
+
+  proxy model (stateful):
+    init <raw>            reset
+    w <t> <str> | f <t> | close | fl | run | start | stop | newloop | closeloop | settle
+    end                   summary line
+  reply to every op: `<events appended by the op> | buf=.. q=.. fl=.. pend=.. lost=.. app=.. loop=..`
+
+  chain model (stateful, separate state):
+    cinit | center <k> | cstep <k> | cstop | cstart
+-/
+
+def encEv : Ev → String
+  | .draw => "D"
+  | .erase => "E"
+  | .doneDraw => "X"
+  | .out raw t => s!"O{encBool raw}:{encStr t}"
+
+def encItem : Item → String
+  | .text t => encStr t
+  | .done => "DONE"
+
+def encFl : Fl → String
+  | .idle => "idle"
+  | .batch _ _ => "batch"
+  | .ready none t _ => s!"ready:N:{encStr t}"
+  | .ready (some g) t _ => s!"ready:{g}:{encStr t}"
+  | .relook g _ _ => s!"relook:{g}"
+  | .exited => "exited"
+
+def encState (s : St) : String :=
+  s!"buf={encStr (cat s.buffer)} q={encList encItem s.queue} fl={encFl s.fl} pend={encList encStr s.pending} lost={encList encStr s.lost} app={encBool s.appOn} loop={s.loopGen}/{encBool s.loopOpen}"
+
+def parseOp : List String → Option Op
+  | ["w", t, d] => do pure (.write (← decNat t) (← decStr d))
+  | ["f", t] => do pure (.flush (← decNat t))
+  | ["close"] => some .close
+  | ["fl"] => some .fl
+  | ["run"] => some .run
+  | ["start"] => some .start
+  | ["stop"] => some .stop
+  | ["newloop"] => some .newLoop
+  | ["closeloop"] => some .closeLoop
+  | _ => none
+
+structure DSt where
+  s : St := {}
+  c : C20Chain.St := {}
+
+def reply (old new : St) : String :=
+  let evs := new.log.drop old.log.length
+  " ".intercalate (evs.map encEv) ++ " | " ++ encState new
+
+def stepLine (d : DSt) (toks : List String) : DSt × String :=
+  match toks with
+  | ["init", r] =>
+    match decBool r with
+    | some r => let s := init r; ({ d with s := s }, " | " ++ encState s)
+    | none => (d, "bad-op")
+  | ["settle"] =>
+    let s' := settle 100000 d.s
+    ({ d with s := s' }, reply d.s s')
+  | ["end"] =>
+    let s := d.s
+    let started := s.log.any fun e => e == .draw
+    (d, s!"out={encStr (outText s.log)} term={if started then "-" else encStr (termText s.log)} quiescent={encBool (quiescent s)}")
+  | "cinit" :: _ | "center" :: _ | "cstep" :: _ | "cstop" :: _ | "cstart" :: _ =>
+    match C20Chain.stepLine d.c toks with
+    | some (c', r) => ({ d with c := c' }, r)
+    | none => (d, "bad-op")
+  | _ =>
+    match parseOp toks with
+    | some op =>
+      let s' := step d.s op
+      ({ d with s := s' }, reply d.s s')
+    | none => (d, "bad-op")
+
+def main : IO Unit := runS stepLine {}
